@@ -28,7 +28,7 @@ def generate(rng, tier, index):
     sc = {
         "n": n,
         "lens": [rng.randrange(1, 9) for _ in range(n)],
-        "rlens": [rng.choice([0, 1, 2, 3, 4]) for _ in range(n)],
+        "rlens": [rng.choice([0, 1, 2, 3, 4, 4, 19]) for _ in range(n)],
         "F": rng.randrange(1, 4),
         "salt": rng.randrange(1000),
         "id_style": rng.randrange(4),
